@@ -32,19 +32,17 @@ def K(e):
 # sanitiser recognition
 # ---------------------------------------------------------------------------
 
-def is_xml_attr_escaper(f, path):
-    """crate fn (&str) -> String whose per-character decision maps & < " to their entities and
-    passes an ordinary character through unchanged"""
+def escaper_table(f, path):
+    """decision table of a crate fn (&str) -> String over the XML-special characters: {char: emitted} or None"""
     raw = f.fns.get(path)
     if not raw or raw.get("inputs") != ["&str"] or raw.get("output") not in ("std::string::String",):
-        return False
+        return None
     fn = f.fn(path)
     sw = [b["id"] for b in fn.blocks if not b["cleanup"] and b["term"] and b["term"]["k"] == "switch" and b["term"]["ty"] == "char"]
     if not sw:
-        return False
+        return None
     chars = [l["id"] for l in fn.locals if l["ty"] == "char"]
     F = fold.Folder(f)
-    want = {"&": "&amp;", "<": "&lt;", '"': "&quot;"}
 
     def outcome(c):
         env = {l: ("char", ord(c)) for l in chars}
@@ -52,17 +50,50 @@ def is_xml_attr_escaper(f, path):
                   stop=lambda e: e["callee"] in ("std::string::String::push_str", "std::string::String::push"))
         if r.kind != "stop":
             return None
-        a = r.value["args"][1]
-        return to_py(a)
+        return to_py(r.value["args"][1])
 
-    for c, ent in want.items():
-        if outcome(c) != ent:
-            return False
-    return outcome("a") == ord("a") and outcome("/") == ord("/")
+    return {c: outcome(c) for c in "&<\">'a/"}
+
+
+REQUIRED_ENTITIES = {"&": "&amp;", "<": "&lt;", '"': "&quot;"}
+OPTIONAL_ENTITIES = {">": ("&gt;", ord(">")), "'": ("&apos;", ord("'"), "&#39;", "&#x27;")}
+
+
+def classify_escaper(f, path):
+    """('ok' | 'broken' | None, detail)"""
+    t = escaper_table(f, path)
+    if t is None:
+        return None, None
+    looks = sum(1 for c, e in t.items() if isinstance(e, str) and e.startswith("&") and e.endswith(";"))
+    if looks == 0:
+        return None, None
+    bad = {}
+    for c, ent in REQUIRED_ENTITIES.items():
+        if t.get(c) != ent and t.get(c) not in ("&#%d;" % ord(c), "&#x%x;" % ord(c), "&#x%X;" % ord(c)):
+            bad[c] = t.get(c)
+    for c, oks in OPTIONAL_ENTITIES.items():
+        if t.get(c) not in oks:
+            bad[c] = t.get(c)
+    if t.get("a") != ord("a") or t.get("/") != ord("/"):
+        bad["ordinary"] = (t.get("a"), t.get("/"))
+    return ("broken" if bad else "ok"), (bad or t)
+
+
+def is_xml_attr_escaper(f, path):
+    return classify_escaper(f, path)[0] == "ok"
 
 
 def sanitisers(f):
     return {p for p in f.fns if is_xml_attr_escaper(f, p)}
+
+
+def broken_sanitisers(f):
+    out = {}
+    for p in f.fns:
+        k, d = classify_escaper(f, p)
+        if k == "broken":
+            out[p] = d
+    return out
 
 
 # ---------------------------------------------------------------------------
@@ -95,7 +126,16 @@ def c12_r1(ctx, f):
             if is_source(st, (b["id"], i)):
                 nsrc += 1
     ctx.floor(rid, "reads of SvgBuilder.image", nsrc, 1)
-    tainted, through = fn.taint(is_source, sanitiser=lambda t: (t.get("callee") in san))
+    broken = broken_sanitisers(f)
+    for c in fn.calls():
+        if c.callee in broken:
+            for ch, got in sorted(broken[c.callee].items(), key=str):
+                ctx.fail(rid, "%s/escaper/%s" % (c.callee, "ordinary" if ch == "ordinary" else "U+%04X" % ord(ch)), c.where(), c.callee,
+                         "character %r" % ch,
+                         "the attribute escaper maps this character to %r: not a predefined XML entity / not the character itself, so an image "
+                         "string containing it yields an ill-formed or altered document" % (got,),
+                         expected=REQUIRED_ENTITIES.get(ch) or "entity or unchanged", found=got)
+    tainted, through = fn.taint(is_source, sanitiser=lambda t: (t.get("callee") in san or t.get("callee") in broken))
     ctx.analysed(fn, len(through))
     unknown = [t for t, pt in through if (t.get("callee") or t.get("declared")) not in TRANSPARENT]
     reached = 0 in tainted
